@@ -322,10 +322,14 @@ package transport
 
 //@ func readPQClientHello(hs *HandshakeState, b []byte) (n int, err error)
 //@   property C10 C02
-//@   requires hsOK(hs)
+//@   requires hsOK(hs) && ref(b) != ref(hs.macBuf[:])
 //@   modifies hs.duplex, hs.duplex.gh_tr, hs.macBuf, hs.kem.remoteEphemeral
 //@   ensures cyclistOK(hs.duplex) && hs.duplex.mode == old(hs.duplex.mode)
 //@   ensures err == nil ==> n == 820 && len(b) >= 820 && hs.kem.remoteEphemeral != nil
+// (C02) all 820 bytes are covered: header and key absorbed, the last 16 equal the squeezed MAC
+//@   ensures err == nil ==> hs.duplex.gh_tr == chTr(old(hs.duplex.gh_tr), bytes(b[0:4]), bytes(b[4:804]))
+//@   ensures err == nil ==> bytes(b[804:820]) == chMac(old(hs.duplex.gh_tr), bytes(b[0:4]), bytes(b[4:804]))
+//@   ensures err == nil ==> b[0] == 1 && b[1] == 1 && b[2] == 0 && b[3] == 0 && kemPubOf(ref(hs.kem.remoteEphemeral)) == bytes(b[4:804])
 
 //@ func (s *Server) handlePQClientHello(b []byte) (hs *HandshakeState, err error)
 //@   property C10 C19
@@ -562,6 +566,10 @@ package transport
 //@   requires hsOK(hs) && hs.kem.ephemeral.Public != nil
 //@   modifies hs.duplex, hs.duplex.gh_tr, b[:]
 //@   ensures cyclistOK(hs.duplex) && hs.duplex.mode == old(hs.duplex.mode) && 0 <= n && n <= len(b)
+// (C02) the writer applies the same transcript function to the bytes it produced
+//@   ensures err == nil ==> n == 820 && hs.duplex.gh_tr == chTr(old(hs.duplex.gh_tr), bytes(b[0:4]), bytes(b[4:804]))
+//@   ensures err == nil ==> bytes(b[804:820]) == chMac(old(hs.duplex.gh_tr), bytes(b[0:4]), bytes(b[4:804]))
+//@   ensures err == nil ==> b[0] == 1 && b[1] == 1 && b[2] == 0 && b[3] == 0 && bytes(b[4:804]) == kemPubOf(ref(hs.kem.ephemeral.Public))
 
 //@ func readPQServerHello(hs *HandshakeState, b []byte) (n int, err error)
 //@   property C10 C02
@@ -671,3 +679,13 @@ package transport
 //@   requires c.config.Exchanger != nil
 //@   ensures err == nil ==> (called(transport.Client.beginPQHiddenHandshake) && resultof(transport.Client.beginPQHiddenHandshake, err) == nil) ||
 //@        (called(transport.Client.beginPQDiscoverableHandshake) && resultof(transport.Client.beginPQDiscoverableHandshake, err) == nil)
+
+// ===========================================================================
+// C02: every byte of every handshake message is bound into the transcript (or
+// compared with a squeezed MAC), and writer and reader of a message apply the
+// SAME transcript function to the message's fields.
+// ===========================================================================
+// Client Hello: [0:4] header | [4:804] client KEM key | [804:820] MAC
+//@ macro chAbs(t, hdr, ekem) = trAbsorb(trAbsorb(t, hdr), ekem)
+//@ macro chTr(t, hdr, ekem) = trSqueeze(chAbs(t, hdr, ekem), 16)
+//@ macro chMac(t, hdr, ekem) = sqBytes(chAbs(t, hdr, ekem), 16)
